@@ -169,6 +169,7 @@ def setup(contract, cfgname, D, registry, repo):
         elif isinstance(val, int): st.env[s] = IntV(val)
         elif val == 'func': st.env[s] = FuncV(s)
         elif val == 'cell': st.env[s] = Cell(z3.Const(s, alg.sort))
+        elif val == 'ndarray': st.env[s] = E.NdV(z3.Const(s, alg.sort))
         else: raise Undecided('scalar kind %r' % (val,))
     present = {a: (st.env.get(a.split('.')[0]) is not None) for a in contract.arrays}
     def mk(goal=False):
@@ -315,7 +316,12 @@ class Callee:
                     if not isinstance(val, FuncV): okc = False
                 elif want == 'cell':
                     if not isinstance(val, Cell): okc = False
-            if okc: cfgname = nm; break
+            if okc:
+                # the configuration's own assumptions (e.g. r >= 3) must be entailed at the call site
+                probe = _SubCtx(ex, pre, pnames, bound, con)
+                try: extra = list(con.cfg_assumptions(probe, nm))
+                except Exception: extra = []
+                if all(ex.entails(a) is True for a in extra): cfgname = nm; break
         if cfgname is None:
             raise Undecided('call of %s uses an aliasing/argument configuration the contract does not list: alias=%s' % (con.qual, alias))
         cfg = con.cfgs[cfgname]
@@ -347,6 +353,7 @@ class Callee:
         # return value
         rv = con.returns
         if rv is None or rv == 'none': return None
+        if rv == 'any': return E._Poison('return value of ' + con.qual)       # branch-dependent result: usable only as a discarded value
         if rv in con.tuples:
             return tuple(View(pnames['%s.%d' % (rv, i)], z3.IntVal(0), 1, ex.D) for i in range(con.tuples[rv]))
         if rv in pnames: return View(pnames[rv], z3.IntVal(0), 1, ex.D)
